@@ -38,6 +38,14 @@ type qField struct {
 	Kind string `json:"kind"` // single, slice, missing (optional field of a type nobody provides)
 	Qual string `json:"qual"`
 	Opt  bool   `json:"optional,omitempty"`
+	// Ptr: the field is declared with the pointer type of one provider type (PlainNQ, PlainQ, PrimNQ,
+	// PrimQ) instead of the interface: its candidates are the providers of exactly that type
+	Ptr string `json:"pointer_to,omitempty"`
+}
+
+var qPtrTypes = map[string]reflect.Type{
+	"PlainNQ": reflect.TypeOf((*scen.PlainNQ)(nil)), "PlainQ": reflect.TypeOf((*scen.PlainQ)(nil)),
+	"PrimNQ": reflect.TypeOf((*scen.PrimNQ)(nil)), "PrimQ": reflect.TypeOf((*scen.PrimQ)(nil)),
 }
 
 type resolveCase struct {
@@ -119,6 +127,28 @@ func resolveGen(c *core.Ctx) func(yield func(resolveCase) bool) {
 				}
 			}
 		}
+		// (e) points declared with the pointer type of one provider type: the same ranking among the
+		// providers of exactly that type (at least two of them), next to an interface-typed point
+		for _, pop := range pops3 {
+			cnt := map[string]int{}
+			for _, p := range pop {
+				cnt[p.TypeKey()]++
+			}
+			for _, tk := range []string{"PlainNQ", "PlainQ", "PrimNQ", "PrimQ"} {
+				if cnt[tk] < 2 {
+					continue
+				}
+				for _, qa := range qualArgs {
+					ps, pl := qField{Kind: "single", Qual: qa, Ptr: tk}, qField{Kind: "slice", Qual: qa, Ptr: tk}
+					is := qField{Kind: "single", Qual: qa}
+					for _, fs := range [][]qField{{ps, pl}, {is, ps}, {qField{Kind: "single", Qual: qa, Ptr: tk, Opt: true}, pl}} {
+						if !yield(resolveCase{Pop: pop, Fields: fs, Family: "e"}) {
+							return
+						}
+					}
+				}
+			}
+		}
 		// (c) optional points with qualifier arguments, before and after a required one
 		for _, pop := range pops2 {
 			for _, q1 := range qualArgs {
@@ -190,6 +220,9 @@ func qRef(pop []scen.QProv, f qField) (R, allowed []int) {
 	}
 	req, hasQ := qualSets[f.Qual], f.Qual != ""
 	for i, p := range pop {
+		if f.Ptr != "" && p.TypeKey() != f.Ptr {
+			continue
+		}
 		if hasQ {
 			ok := false
 			for _, r := range req {
@@ -235,10 +268,14 @@ func resolveOnce(c *core.Ctx, cs resolveCase, perm []int, ch *envx.Chooser) (res
 			tag += ",required=false"
 		}
 		sf := reflect.StructField{Name: fmt.Sprintf("F%d", i), Tag: reflect.StructTag(fmt.Sprintf(`wire:"%s"`, tag))}
-		switch f.Kind {
-		case "single":
+		switch {
+		case f.Kind == "single" && f.Ptr != "":
+			sf.Type = qPtrTypes[f.Ptr]
+		case f.Kind == "slice" && f.Ptr != "":
+			sf.Type = reflect.SliceOf(qPtrTypes[f.Ptr])
+		case f.Kind == "single":
 			sf.Type = tIQ
-		case "slice":
+		case f.Kind == "slice":
 			sf.Type = tIQs
 		default:
 			sf.Type = tMissing
